@@ -154,14 +154,18 @@ def selftest(pid, wd, tpath):
             muts.append(("C01-htlc-trimmed-as-dust", m))
             break
     for k, r in enumerate(recs):
-        # (one that is delivered later on: a revocation lost with its connection would not be missed)
-        if r["ev"] == "msg" and r.get("kind") == "revoke_and_ack" and any(
-                x["ev"] == "deliver" and x.get("kind") == "revoke_and_ack" and x["run"] == r["run"] and x.get("from") == r["from"]
-                and x.get("secret_point") == r.get("secret_point") for x in recs[k + 1:k + 400]) and any(
-                x["ev"] == "deliver" and x.get("kind") == "commitment_signed" and x["run"] == r["run"] and x.get("to") == r["from"]
-                and x.get("chan") == r.get("chan") for x in recs[k + 1:k + 400]):
-            muts.append(("C05-raa-dropped", recs[:k] + recs[k + 1:]))
-            break
+        # (one that reaches the peer on the same connection -- a revocation lost with its connection is simply
+        # sent again -- and whose sender later receives another commitment_signed)
+        if r["ev"] == "msg" and r.get("kind") == "revoke_and_ack":
+            later = [x for x in recs[k + 1:k + 400] if x["run"] == r["run"]]
+            cut = next((n for n, x in enumerate(later) if x["ev"] in ("crash", "disconnect", "force_close")), len(later))
+            same_conn = later[:cut]
+            if any(x["ev"] == "deliver" and x.get("kind") == "revoke_and_ack" and x.get("from") == r["from"]
+                   and x.get("secret_point") == r.get("secret_point") for x in same_conn) and \
+               any(x["ev"] == "deliver" and x.get("kind") == "commitment_signed" and x.get("to") == r["from"]
+                   and x.get("chan") == r.get("chan") for x in same_conn):
+                muts.append(("C05-raa-dropped", recs[:k] + recs[k + 1:]))
+                break
     for k, r in enumerate(recs):
         if r["ev"] == "persist" and r.get("status") == "inprogress" and r.get("has_update"):
             # drop its completion: whatever was released afterwards was released too early
